@@ -176,8 +176,8 @@ PROPS = {
               "cases = MC_Csr.Cases: presence product {KU, SAN, EKU, custom} x subject x caller attribute lists (orders, duplicate OIDs) x every subset of the five inexpressible fields x algorithms, all 512 key-usage sets; each generated request is decoded independently and parsed back by rcgen",
               ops=["Csr"], exhaustive=True),
     "C08": _p("model_checking", ["crl"], ["C08."],
-              "cases = MC_Crl.Cases: update orderings x issuer key-usage sets x entry shapes; all reason codes x invalidity dates; serial / CRL-number byte-string classes squared; IDP URIs x scopes; 5x5 key-id methods; algorithms; times around the form boundaries in all CRL time fields",
-              ops=["Crl"], exhaustive=True),
+              "cases = MC_Crl.Cases: update orderings x issuer key-usage sets x entry shapes; all reason codes x invalidity dates; serial / CRL-number byte-string classes squared; IDP URIs x scopes; 5x5 key-id methods; algorithms; times around the form boundaries in all CRL time fields; for a third of the CRLs without IDP, certificates really issued under every listed serial, the same INTEGER with other leading zero octets, a neighbouring value and unlisted serials are looked up by OpenSSL (X509_CRL_get0_by_cert) and by webpki (verify_for_usage with the CRL)",
+              ops=["Crl", "RevocationCheck"], exhaustive=True),
     "C12": _p("model_checking", ["path"], ["C12."],
               "MC_Path.Cases: chains root -> 0..3 intermediates -> leaf, one dimension varied at one position: CA flag variant of each issuer, path length {absent,0,1,2} against depth, verification day before/inside/after each window, permitted/excluded/both DNS and IPv4/IPv6 subtrees (prefixes 0,1,8,9,24,31,32 | 0,1,64,65,127,128) at root or intermediate against leaf names inside/outside/at the subnet boundary, leaf EKU subsets against server/client purpose, CA key-usage sets with/without keyCertSign; each chain is built by rcgen and judged by OpenSSL and webpki where the coverage table (PathValidation!Covered) says the validator's documented semantics cover the dimension",
               ops=["Validate"], exhaustive=True),
